@@ -91,45 +91,45 @@ var (
 	Interrupt = os.Interrupt
 	Kill      = os.Kill
 
-	IsExist      = os.IsExist
-	IsNotExist   = os.IsNotExist
-	IsPermission = os.IsPermission
-	IsTimeout    = os.IsTimeout
+	IsExist         = os.IsExist
+	IsNotExist      = os.IsNotExist
+	IsPermission    = os.IsPermission
+	IsTimeout       = os.IsTimeout
 	IsPathSeparator = os.IsPathSeparator
 
-	Getenv        = os.Getenv
-	LookupEnv     = os.LookupEnv
-	Setenv        = os.Setenv
-	Unsetenv      = os.Unsetenv
-	Environ       = os.Environ
-	Clearenv      = os.Clearenv
-	Expand        = os.Expand
-	ExpandEnv     = os.ExpandEnv
-	Exit          = os.Exit
-	Getpid        = os.Getpid
-	Getppid       = os.Getppid
-	Getuid        = os.Getuid
-	Geteuid       = os.Geteuid
-	Getgid        = os.Getgid
-	Getegid       = os.Getegid
-	Getgroups     = os.Getgroups
-	Getpagesize   = os.Getpagesize
-	Hostname      = os.Hostname
-	TempDir       = os.TempDir
-	UserHomeDir   = os.UserHomeDir
-	UserCacheDir  = os.UserCacheDir
-	UserConfigDir = os.UserConfigDir
-	Executable    = os.Executable
-	Getwd         = os.Getwd
-	Chdir         = os.Chdir
-	SameFile      = os.SameFile
-	DirFS         = os.DirFS
+	Getenv          = os.Getenv
+	LookupEnv       = os.LookupEnv
+	Setenv          = os.Setenv
+	Unsetenv        = os.Unsetenv
+	Environ         = os.Environ
+	Clearenv        = os.Clearenv
+	Expand          = os.Expand
+	ExpandEnv       = os.ExpandEnv
+	Exit            = os.Exit
+	Getpid          = os.Getpid
+	Getppid         = os.Getppid
+	Getuid          = os.Getuid
+	Geteuid         = os.Geteuid
+	Getgid          = os.Getgid
+	Getegid         = os.Getegid
+	Getgroups       = os.Getgroups
+	Getpagesize     = os.Getpagesize
+	Hostname        = os.Hostname
+	TempDir         = os.TempDir
+	UserHomeDir     = os.UserHomeDir
+	UserCacheDir    = os.UserCacheDir
+	UserConfigDir   = os.UserConfigDir
+	Executable      = os.Executable
+	Getwd           = os.Getwd
+	Chdir           = os.Chdir
+	SameFile        = os.SameFile
+	DirFS           = os.DirFS
 	NewSyscallError = os.NewSyscallError
-	FindProcess   = os.FindProcess
-	Readlink      = os.Readlink
-	Chtimes       = os.Chtimes
-	Chown         = os.Chown
-	Lchown        = os.Lchown
+	FindProcess     = os.FindProcess
+	Readlink        = os.Readlink
+	Chtimes         = os.Chtimes
+	Chown           = os.Chown
+	Lchown          = os.Lchown
 )
 
 // ---- controller -------------------------------------------------------------
@@ -168,6 +168,45 @@ type Controller interface {
 	// TempName returns the name replacing the '*' of CreateTemp/MkdirTemp patterns
 	// (owns the randomness of temp names).
 	TempName() string
+}
+
+// Observer is an optional extension of Controller: it is told a hash of what a
+// read-type step returned (directory names, bytes read, sizes, errors), which
+// is what the calling thread can base its future behaviour on.
+type Observer interface {
+	Observe(op Op, result uint64)
+}
+
+func observe(op Op, parts ...any) {
+	b := ctl.Load()
+	if b == nil {
+		return
+	}
+	o, ok := b.c.(Observer)
+	if !ok {
+		return
+	}
+	h := uint64(14695981039346656037)
+	for _, c := range fmt.Sprint(parts...) {
+		h = (h ^ uint64(c)) * 1099511628211
+	}
+	o.Observe(op, h)
+}
+
+func hashBytes(p []byte) uint64 {
+	h := uint64(14695981039346656037)
+	for _, c := range p {
+		h = (h ^ uint64(c)) * 1099511628211
+	}
+	return h
+}
+
+func names(ents []os.DirEntry) string {
+	n := make([]string, len(ents))
+	for i, e := range ents {
+		n[i] = e.Name()
+	}
+	return strings.Join(n, ",")
 }
 
 // Crashed is the panic value raised at and after a crash point.
@@ -240,24 +279,50 @@ func wrap(f *os.File, err error) (*File, error) {
 	return &File{f: f, name: f.Name()}, nil
 }
 
-func (f *File) Name() string { return f.name }
-func (f *File) Fd() uintptr  { return f.f.Fd() }
+func (f *File) Name() string {
+	if f == nil {
+		panic("vos: Name of nil *File") // os.(*File).Name panics as well
+	}
+	return f.name
+}
+func (f *File) Fd() uintptr { return f.f.Fd() }
 
 func (f *File) Read(p []byte) (int, error) {
-	if a, on := step(Op{Kind: "read", Path: f.name, N: len(p)}); on && a.Err != nil {
+	if f == nil {
+		return 0, os.ErrInvalid
+	}
+	op := Op{Kind: "read", Path: f.name, N: len(p)}
+	a, on := step(op)
+	if on && a.Err != nil {
 		return 0, pathErr("read", f.name, a.Err)
 	}
-	return f.f.Read(p)
+	n, err := f.f.Read(p)
+	if on {
+		observe(op, n, err, hashBytes(p[:n]))
+	}
+	return n, err
 }
 
 func (f *File) ReadAt(p []byte, off int64) (int, error) {
-	if a, on := step(Op{Kind: "read", Path: f.name, N: len(p)}); on && a.Err != nil {
+	if f == nil {
+		return 0, os.ErrInvalid
+	}
+	op := Op{Kind: "read", Path: f.name, N: len(p)}
+	a, on := step(op)
+	if on && a.Err != nil {
 		return 0, pathErr("read", f.name, a.Err)
 	}
-	return f.f.ReadAt(p, off)
+	n, err := f.f.ReadAt(p, off)
+	if on {
+		observe(op, n, err, hashBytes(p[:n]))
+	}
+	return n, err
 }
 
 func (f *File) write(p []byte, do func([]byte) (int, error)) (int, error) {
+	if f == nil {
+		return 0, os.ErrInvalid
+	}
 	a, on := step(Op{Kind: "write", Path: f.name, N: len(p), Mutating: true})
 	if on && (a.Err != nil || a.Crash) {
 		n := 0
@@ -277,13 +342,26 @@ func (f *File) write(p []byte, do func([]byte) (int, error)) (int, error) {
 	return do(p)
 }
 
-func (f *File) Write(p []byte) (int, error) { return f.write(p, f.f.Write) }
+func (f *File) Write(p []byte) (int, error) {
+	if f == nil {
+		return 0, os.ErrInvalid
+	}
+	return f.write(p, f.f.Write)
+}
 func (f *File) WriteAt(p []byte, off int64) (int, error) {
+	if f == nil {
+		return 0, os.ErrInvalid
+	}
 	return f.write(p, func(b []byte) (int, error) { return f.f.WriteAt(b, off) })
 }
 func (f *File) WriteString(s string) (int, error) { return f.Write([]byte(s)) }
 
-func (f *File) Seek(offset int64, whence int) (int64, error) { return f.f.Seek(offset, whence) }
+func (f *File) Seek(offset int64, whence int) (int64, error) {
+	if f == nil {
+		return 0, os.ErrInvalid
+	}
+	return f.f.Seek(offset, whence)
+}
 
 func (f *File) Close() error {
 	if f == nil {
@@ -297,13 +375,27 @@ func (f *File) Close() error {
 }
 
 func (f *File) Stat() (os.FileInfo, error) {
-	if a, on := step(Op{Kind: "stat", Path: f.name}); on && a.Err != nil {
+	if f == nil {
+		return nil, os.ErrInvalid
+	}
+	op := Op{Kind: "stat", Path: f.name}
+	a, on := step(op)
+	if on && a.Err != nil {
 		return nil, pathErr("stat", f.name, a.Err)
 	}
-	return f.f.Stat()
+	fi, err := f.f.Stat()
+	if on && err == nil {
+		observe(op, fi.Size(), fi.IsDir())
+	} else if on {
+		observe(op, err)
+	}
+	return fi, err
 }
 
 func (f *File) Sync() error {
+	if f == nil {
+		return os.ErrInvalid
+	}
 	if a, on := step(Op{Kind: "sync", Path: f.name}); on && a.Err != nil {
 		return pathErr("sync", f.name, a.Err)
 	}
@@ -311,6 +403,9 @@ func (f *File) Sync() error {
 }
 
 func (f *File) Truncate(size int64) error {
+	if f == nil {
+		return os.ErrInvalid
+	}
 	if a, on := step(Op{Kind: "truncate", Path: f.name, Mutating: true}); on && a.Err != nil {
 		return pathErr("truncate", f.name, a.Err)
 	}
@@ -318,15 +413,26 @@ func (f *File) Truncate(size int64) error {
 }
 
 func (f *File) Chmod(mode os.FileMode) error {
+	if f == nil {
+		return os.ErrInvalid
+	}
 	if a, on := step(Op{Kind: "chmod", Path: f.name, Mutating: true}); on && a.Err != nil {
 		return pathErr("chmod", f.name, a.Err)
 	}
 	return f.f.Chmod(mode)
 }
 
-func (f *File) Chown(uid, gid int) error { return f.f.Chown(uid, gid) }
+func (f *File) Chown(uid, gid int) error {
+	if f == nil {
+		return os.ErrInvalid
+	}
+	return f.f.Chown(uid, gid)
+}
 
 func (f *File) ReadDir(n int) ([]os.DirEntry, error) {
+	if f == nil {
+		return nil, os.ErrInvalid
+	}
 	if a, on := step(Op{Kind: "readdir", Path: f.name}); on && a.Err != nil {
 		return nil, pathErr("readdir", f.name, a.Err)
 	}
@@ -334,6 +440,9 @@ func (f *File) ReadDir(n int) ([]os.DirEntry, error) {
 }
 
 func (f *File) Readdir(n int) ([]os.FileInfo, error) {
+	if f == nil {
+		return nil, os.ErrInvalid
+	}
 	if a, on := step(Op{Kind: "readdir", Path: f.name}); on && a.Err != nil {
 		return nil, pathErr("readdir", f.name, a.Err)
 	}
@@ -341,6 +450,9 @@ func (f *File) Readdir(n int) ([]os.FileInfo, error) {
 }
 
 func (f *File) Readdirnames(n int) ([]string, error) {
+	if f == nil {
+		return nil, os.ErrInvalid
+	}
 	if a, on := step(Op{Kind: "readdir", Path: f.name}); on && a.Err != nil {
 		return nil, pathErr("readdir", f.name, a.Err)
 	}
@@ -359,10 +471,16 @@ func exists(p string) bool { _, err := os.Lstat(p); return err == nil }
 
 func OpenFile(name string, flag int, perm os.FileMode) (*File, error) {
 	mut := flag&os.O_TRUNC != 0 || (flag&os.O_CREATE != 0 && Active() && !exists(name))
-	if a, on := step(Op{Kind: "open", Path: name, Flags: flag, Mutating: mut}); on && a.Err != nil {
+	op := Op{Kind: "open", Path: name, Flags: flag, Mutating: mut}
+	a, on := step(op)
+	if on && a.Err != nil {
 		return nil, pathErr("open", name, a.Err)
 	}
-	return wrap(os.OpenFile(name, flag, perm))
+	f, err := wrap(os.OpenFile(name, flag, perm))
+	if on {
+		observe(op, err)
+	}
+	return f, err
 }
 
 func Open(name string) (*File, error) { return OpenFile(name, os.O_RDONLY, 0) }
@@ -490,10 +608,18 @@ func Truncate(name string, size int64) error {
 }
 
 func Stat(name string) (os.FileInfo, error) {
-	if a, on := step(Op{Kind: "stat", Path: name}); on && a.Err != nil {
+	op := Op{Kind: "stat", Path: name}
+	a, on := step(op)
+	if on && a.Err != nil {
 		return nil, pathErr("stat", name, a.Err)
 	}
-	return os.Stat(name)
+	fi, err := os.Stat(name)
+	if on && err == nil {
+		observe(op, fi.Size(), fi.IsDir())
+	} else if on {
+		observe(op, err)
+	}
+	return fi, err
 }
 
 func Lstat(name string) (os.FileInfo, error) {
@@ -504,10 +630,16 @@ func Lstat(name string) (os.FileInfo, error) {
 }
 
 func ReadDir(name string) ([]os.DirEntry, error) {
-	if a, on := step(Op{Kind: "readdir", Path: name}); on && a.Err != nil {
+	op := Op{Kind: "readdir", Path: name}
+	a, on := step(op)
+	if on && a.Err != nil {
 		return nil, pathErr("open", name, a.Err)
 	}
-	return os.ReadDir(name)
+	ents, err := os.ReadDir(name)
+	if on {
+		observe(op, names(ents), err)
+	}
+	return ents, err
 }
 
 // ReadFile = open + read + close.
